@@ -35,6 +35,18 @@ use crate::{
     xtypes::dynamic_type::DynamicType,
 };
 
+/// Returns the first id in `start..=max` followed by `0..start` for which `in_use` is false.
+pub(super) fn next_free_id(start: u16, max: u16, in_use: impl Fn(u16) -> bool) -> Option<u16> {
+    let mut id = start.min(max);
+    for _ in 0..=max as u32 {
+        if !in_use(id) {
+            return Some(id);
+        }
+        id = if id == max { 0 } else { id + 1 };
+    }
+    None
+}
+
 impl DcpsDomainParticipant {
     #[tracing::instrument(skip(self, dcps_listener, runtime))]
     pub fn create_user_defined_publisher(
@@ -49,6 +61,16 @@ impl DcpsDomainParticipant {
             QosKind::Specific(q) => q,
         };
 
+        // Entity ids are reused after deletion: take the next id no live publisher holds
+        let Some(publisher_id) = next_free_id(self.publisher_counter as u16, u8::MAX as u16, |id| {
+            self.domain_participant
+                .user_defined_publisher_list
+                .iter()
+                .any(|x| x.instance_handle[12] == id as u8)
+        }) else {
+            return Err(DdsError::OutOfResources);
+        };
+        let publisher_id = publisher_id as u8;
         let publisher_handle = InstanceHandle::new([
             self.domain_participant.instance_handle[0],
             self.domain_participant.instance_handle[1],
@@ -62,12 +84,12 @@ impl DcpsDomainParticipant {
             self.domain_participant.instance_handle[9],
             self.domain_participant.instance_handle[10],
             self.domain_participant.instance_handle[11],
-            self.publisher_counter,
+            publisher_id,
             0,
             0,
             USER_DEFINED_WRITER_GROUP,
         ]);
-        self.publisher_counter += 1;
+        self.publisher_counter = publisher_id.wrapping_add(1);
         let data_writer_list = Default::default();
         let listener_sender = dcps_listener.map(|l| l.spawn(&runtime.spawner()));
         let mut publisher = PublisherEntity::new(
@@ -139,6 +161,16 @@ impl DcpsDomainParticipant {
             QosKind::Default => self.domain_participant.default_subscriber_qos.clone(),
             QosKind::Specific(q) => q,
         };
+        // Entity ids are reused after deletion: take the next id no live subscriber holds
+        let Some(subscriber_id) = next_free_id(self.subscriber_counter as u16, u8::MAX as u16, |id| {
+            self.domain_participant
+                .user_defined_subscriber_list
+                .iter()
+                .any(|x| x.instance_handle[12] == id as u8)
+        }) else {
+            return Err(DdsError::OutOfResources);
+        };
+        let subscriber_id = subscriber_id as u8;
         let subscriber_handle = InstanceHandle::new([
             self.domain_participant.instance_handle[0],
             self.domain_participant.instance_handle[1],
@@ -152,12 +184,12 @@ impl DcpsDomainParticipant {
             self.domain_participant.instance_handle[9],
             self.domain_participant.instance_handle[10],
             self.domain_participant.instance_handle[11],
-            self.subscriber_counter,
+            subscriber_id,
             0,
             0,
             USER_DEFINED_READER_GROUP,
         ]);
-        self.subscriber_counter += 1;
+        self.subscriber_counter = subscriber_id.wrapping_add(1);
 
         let listener_sender = dcps_listener.map(|l| l.spawn(&runtime.spawner()));
         let mut subscriber = UserDefinedSubscriber::new(
@@ -251,6 +283,18 @@ impl DcpsDomainParticipant {
             QosKind::Specific(q) => q,
         };
 
+        // Entity ids are reused after deletion: take the next id no live topic holds
+        let Some(topic_id) = next_free_id(self.domain_participant.topic_counter, u16::MAX, |id| {
+            self.domain_participant
+                .locally_created_topic_list
+                .iter()
+                .any(|x| {
+                    x.instance_handle[15] == USER_DEFINED_TOPIC
+                        && [x.instance_handle[13], x.instance_handle[14]] == id.to_ne_bytes()
+                })
+        }) else {
+            return Err(DdsError::OutOfResources);
+        };
         let topic_handle = InstanceHandle::new([
             self.domain_participant.instance_handle[0],
             self.domain_participant.instance_handle[1],
@@ -265,11 +309,11 @@ impl DcpsDomainParticipant {
             self.domain_participant.instance_handle[10],
             self.domain_participant.instance_handle[11],
             0,
-            self.domain_participant.topic_counter.to_ne_bytes()[0],
-            self.domain_participant.topic_counter.to_ne_bytes()[1],
+            topic_id.to_ne_bytes()[0],
+            topic_id.to_ne_bytes()[1],
             USER_DEFINED_TOPIC,
         ]);
-        self.domain_participant.topic_counter += 1;
+        self.domain_participant.topic_counter = topic_id.wrapping_add(1);
         let listener_sender = dcps_listener.map(|l| l.spawn(&runtime.spawner()));
         let topic = TopicEntity::new(
             qos,
@@ -389,7 +433,7 @@ impl DcpsDomainParticipant {
             self.domain_participant.topic_counter.to_ne_bytes()[1],
             USER_DEFINED_TOPIC,
         ]);
-        self.domain_participant.topic_counter += 1;
+        self.domain_participant.topic_counter = self.domain_participant.topic_counter.wrapping_add(1);
 
         let topic = ContentFilteredTopicEntity::new(
             name,
